@@ -51,6 +51,8 @@ def items_of(v):
 
 def m_vec_new(I, m, argv, fr, dest, c):
     t = m.group("t")
+    if argv:                                    # with_capacity(n): an allocation of n elements (>= n bytes)
+        I.alloc_events.append(argv[0])
     if t == "u8":
         b = zero_buf(0)
         b.length = U64(0)
